@@ -1060,6 +1060,10 @@ class Engine:
             except Exception as e:  # noqa: BLE001 - an exception of the code under analysis is an outcome
                 pr.status = "exception"
                 pr.exc = (type(e).__name__, str(e)[:300], _exc_where(e))
+                if os.environ.get("VX_TRACE"):
+                    import traceback
+
+                    traceback.print_exc()
             finally:
                 _CUR = None
             pr.decisions = list(self.decisions[: self.pos])
